@@ -58,6 +58,11 @@ func parseCtors(pkg *packages.Package, theTyp types.Type, typName string) []*Fie
 				continue
 			}
 
+			// unnamed parameters cannot be traced to the fields they initialise: not a constructor to map through
+			if len(params.List[0].Names) == 0 {
+				continue
+			}
+
 			nameMap := extractParamToFieldMap(fn)
 			for _, p := range params.List {
 				pname := p.Names[0].Name //params: camelCase
